@@ -22,7 +22,7 @@ const (
 	VerifC41Transports = "PH"                 // pipe, HTTP
 	VerifC41Kinds      = "UVRX"               // unary valued, unary void, producer, exchange
 	VerifC41Exits      = "oubvepnTPNDcfrwCLt" // see VerifC41Valid
-	VerifC41Features   = "nlheiscj"           // none, logs, header, ext-out, ext-in, shm, cast, ext-in+cast
+	VerifC41Features   = "nlheiscjabdgy"      // none, logs, header, ext-out, ext-in, shm, cast, ext-in+cast, and five external-payload shapes
 )
 
 // VerifC41Valid says whether the dispatch code has a path for the class.
@@ -36,6 +36,14 @@ const (
 //	features: n none  l client logs  h stream header  e external storage (output
 //	        externalised)  i external input pointer  s shared memory  c input cast
 //	        j external input pointer whose batch then needs the cast
+//	  external input pointers whose fetched PAYLOAD has a particular shape:
+//	        a the end-of-stream marker cut to 1-3 bytes after a complete batch
+//	        b a second stream (schema message) where a batch belongs: two streams
+//	          concatenated without the first one's end-of-stream marker
+//	        d a log batch and two data batches (the last one wins)
+//	        g (resolve failure only) a data batch followed by another location
+//	          pointer: redirect loop, refused after a batch was decoded
+//	        y (resolve failure only) a log batch and no data batch
 func VerifC41Valid(t, k, e, f byte) bool {
 	if (t != 'P' && t != 'H') || (k != 'U' && k != 'V' && k != 'R' && k != 'X') {
 		return false
@@ -52,8 +60,12 @@ func VerifC41Valid(t, k, e, f byte) bool {
 		if k == 'V' {
 			return false
 		}
-	case 'i':
+	case 'i', 'a', 'b', 'd':
 		if !(t == 'H' || k == 'X') {
+			return false
+		}
+	case 'g', 'y':
+		if !(t == 'H' || k == 'X') || e != 'r' {
 			return false
 		}
 	case 's':
@@ -76,7 +88,7 @@ func VerifC41Valid(t, k, e, f byte) bool {
 	case 'f':
 		return k == 'X'
 	case 'r':
-		if f == 'i' || f == 'j' {
+		if f == 'i' || f == 'j' || f == 'a' || f == 'b' || f == 'd' || f == 'g' || f == 'y' {
 			return true
 		}
 		return f == 's' && k != 'R'
